@@ -45,6 +45,8 @@ META = {
         "Pyoda.GenAgree.C14.gen_MapZone_read_eq", "Pyoda.GenAgree.C14.gen_ZoneLocation_read_eq",
         "Pyoda.GenAgree.C14.gen_WindowsZones_read_loop1_eq", "Pyoda.GenAgree.C14.gen_WindowsZones_read_eq",
         "Pyoda.GenAgree.C14.gen_Zone1970Location_read_loop1_eq", "Pyoda.GenAgree.C14.gen_Zone1970Location_read_eq",
+        "Pyoda.GenAgree.C14.gen_FixedZone_read_eq", "Pyoda.GenAgree.C14.gen_AltMap_read_eq",
+        "Pyoda.GenAgree.C14.gen_PrecalcZone_read_loop1_eq", "Pyoda.GenAgree.C14.gen_PrecalcZone_read_eq",
         "Pyoda.GenAgree.C14S.gen_Field_ctor_eq", "Pyoda.GenAgree.C14S.gen_Field_getId_eq",
         "Pyoda.GenAgree.C14S.gen_readFields_step", "Pyoda.GenAgree.C14S.gen_Field_readFieldsNext_loop1_eq",
         "Pyoda.GenAgree.C14S.gen_Field_readFieldsNext_eq",
@@ -67,7 +69,7 @@ META = {
         "Pyoda.GenAgree.C14W.gen_Writer_writeTransitionSome_eq",
     ],
     "trusted_base": [
-        "translator tie shared with C14 (tools/py2lean.py; GenAgreeC14 / C14S / C14W): the reader (every read_* method, incl. the short-read loop of read_string under any stream that keeps the read(n) contract), the writer, and one next() of the field-framing generator _TzdbStreamField._read_fields are re-translated from the source on every run and proved equal to the codec model the C20 theorems are about (readFields is proved to be the iteration of that step and the handlers: gen_readFields_step). Outside the tie: the _Builder field handlers, _from_stream / create_zone with their except clauses, the zone/recurrence readers (correspondence only)",
+        "translator tie shared with C14 (tools/py2lean.py; GenAgreeC14 / C14S / C14W): the reader (every read_* method, incl. the short-read loop of read_string under any stream that keeps the read(n) contract), the writer, and one next() of the field-framing generator _TzdbStreamField._read_fields are re-translated from the source on every run and proved equal to the codec model the C20 theorems are about (readFields is proved to be the iteration of that step and the handlers: gen_readFields_step). The zone readers create_zone dispatches to — _FixedDateTimeZone.read, _PrecalculatedDateTimeZone._read with its period loop and _StandardDaylightAlternatingMap._read — are tied too (gen_FixedZone_read_eq, gen_PrecalcZone_read_eq, gen_AltMap_read_eq: the model's readFixed / readPrecalculated / readAlternatingMap on the bytes at hand). Outside the tie: the _Builder field handlers, _from_stream / create_zone themselves with their except clauses and the `with` over a field stream (correspondence only)",
         "io.BytesIO read semantics; struct.unpack('i') of four bytes is 0 iff all four are 0",
         "zone creation depends only on (string pool, id, zone field bytes): a (id, field) pair fetched successfully from the undamaged file is not fetched again when pool and field are unchanged (spot-checked on a seeded sample by full evaluation)",
         "wall-clock and memory limits are enforced by the harness (20 s alarm per call, 6 s for the id-map rewiring family; RLIMIT_AS = 1.5 GiB above the worker's mapped size), not proved",
@@ -333,6 +335,39 @@ def count_positions(data: bytes):
                     out.append(("zone-periods", p + 1, _varint(data, p + 1)[1]))
         except IndexError:
             continue
+    return out
+
+
+def gen_hostile_text_faults(ctx, data: bytes, n: int):
+    """Family C: TWO cooperating faults - one byte of a zone id in the string pool becomes a character that is special
+    to a text-formatting mechanism ('{', '}', '%', a backslash, a NUL, a quote) and that zone's type byte (or another
+    byte at the start of its field) becomes invalid, so that an error message MENTIONING the damaged id has to be built.
+    Building the documented error must not itself raise something else."""
+    rng = ctx.rng
+    fs = split_fields(data)
+    pool_pos = {}
+    for fid, a, b in fs:
+        if fid == 0:
+            count, p = _varint(data, a)
+            for idx in range(count):
+                ln, p2 = _varint(data, p)
+                pool_pos[idx] = (p2, ln)
+                p = p2 + ln
+    out = []
+    zone_fields = [(a, b) for fid, a, b in fs if fid == 1]
+    rng.shuffle(zone_fields)
+    specials = [0x7B, 0x7D, 0x25, 0x5C, 0x00, 0x27, 0x22]
+    for a, b in zone_fields[:n]:
+        idx, p = _varint(data, a)
+        if idx not in pool_pos or pool_pos[idx][1] < 3:
+            continue
+        spos, ln = pool_pos[idx]
+        ch = rng.choice(specials)
+        where = spos + rng.randrange(ln)
+        for second in ((p, bytes([9])), (p, bytes([0xFF])), (p + 1, bytes([0xFF, 0xFF]))):
+            r = _subst(data, [(where, bytes([ch])), second])
+            if r and r[1] <= 4:
+                out.append((r[0], "hostile-text+forced-error"))
     return out
 
 
@@ -771,9 +806,10 @@ def run(ctx):
         ctx.note(f"model_guided_candidates.{short}", gcount)
         rewiring = gen_idmap_rewiring(ctx, data, list(pool), ctx.scale(6, 40))
         counts = gen_count_faults(ctx, data, ctx.scale(20, 10_000))
-        ctx.note(f"structured_faults.{short}", _family_histogram(rewiring + counts))
+        hostile = gen_hostile_text_faults(ctx, data, ctx.scale(12, 400))
+        ctx.note(f"structured_faults.{short}", _family_histogram(rewiring + counts + hostile))
         short_limit = {f for f, _ in rewiring}
-        structured = [f for f, _ in rewiring + counts]
+        structured = [f for f, _ in rewiring + counts + hostile]
         faults = list(dict.fromkeys(structured + faults + guided))
         spot = set(ctx.rng.sample(range(len(faults)), max(1, len(faults) // 60)))
         tasks = [(rel, f, (i in spot) and f not in short_limit, STRUCTURED_TIMEOUT_S if f in short_limit else CALL_TIMEOUT_S)
